@@ -89,10 +89,24 @@ C19_COSTS = [(1, 1, 2, 2), (1, 1, 0, 0), (2, 1, 1, 3), (1, 2, 3, 1), (3, 1, 5, 2
              (1, 4, 1, 1, 4), (10, 10, 25, 0, 10)]      # the last two are fractional: uf = 0.25; wd = 2.5, rd = 0
 
 
+def threshold_costs():
+    """Cost vectors whose ratio (wd+rd)/uf lies just below, just above and half a unit below each
+    threshold beta(cm+1, t) of the closed form (seed R6-C13-b: the ratio rounded to an integer)."""
+    out = []
+    for b in (3, 4, 5, 6, 10, 15, 20):
+        for tot in (4 * b - 2, 4 * b - 1, 4 * b + 1):
+            out.append((4, 1, tot // 2, tot - tot // 2))
+    return out
+
+
 def check_c19(ctx):
     q = ctx.tier == "quick"
     nmax, cms = (40, (1, 2, 3)) if q else (80, (1, 2, 3, 4))
     cfgs = []
+    for c in threshold_costs():
+        for cm in cms:
+            for n in (12, 25, 40) if q else (12, 25, 40, 64):
+                cfgs.append(mkcfg("PeriodicDiskRevolve", max_n=n, ram=cm, **boxes.cv(c)))
     for n in range(1, nmax + 1):
         for cm in cms:
             for c in C19_COSTS:
